@@ -527,11 +527,14 @@ class Array(Environment):
         before = None
         leftborder = None
 
-        tex.pushToken(Array)
+        # Marker for the end of the colspec tokens (an instance, so that
+        # the token attributes set by the parser don't end up on a class)
+        end = Command()
+        tex.pushToken(end)
         tex.pushTokens(colspec)
 
         for tok in tex.itertokens():
-            if tok is Array:
+            if tok is end:
                 break
 
             if tok.isElementContentWhitespace:
